@@ -1,7 +1,9 @@
 """C17 — opening arbitrary or damaged files fails cleanly.
-Decided: clause (a) only — nothing is written before the file is recognised and its
-size validated, and a rejected open contains no write at all. Panic freedom and
-termination are NOT decided (see DESIGN §5/C17)."""
+Decided: clause (a) — nothing is written before the file is recognised and its size
+validated, and a rejected open contains no write at all; clause (b) for the functions
+that parse device bytes (C17.bounds, rules/c17_bounds.py + feoxlint/bounds.py) up to
+the residual sites listed in spec/c17_residual.json; clause (c) for the recovery scan loop and the
+zero-scan loop (the position strictly advances on every way back to the loop head)."""
 from feoxlint import analysis as A
 from feoxlint import rulekit as R
 from feoxlint import vocab as V
@@ -23,9 +25,18 @@ and complement match. NOT decided: panic freedom (129 index/slice and 182 unchec
 lengths need relational reasoning) and termination of the scan.
 """
 DECIDED = ["(a) no device write before the file is recognised / size-validated; rejected opens write nothing",
-           "metadata / journal slots accepted only after checksum validation"]
-NOT_DECIDED = ["(b) no panic on arbitrary bytes", "(c) termination of the recovery scan"]
-ASSUMPTIONS = ["FreeSpaceManager::initialize / set_device_size are in-memory only (no device primitive reachable: checked)"]
+           "metadata / journal slots accepted only after checksum validation",
+           "(b, partial) panic sites (bounds, slice ranges, overflow, unwrap of slice conversions, copy lengths, allocation sizes) in the device-byte parsers discharged",
+           "every extent recovery queues for retirement lies inside the device",
+           "(c, partial) the recovery scan's sector and the zero-scan's remaining byte count strictly advance on every back edge"]
+NOT_DECIDED = ["(b) at the 21 residual sites of spec/c17_residual.json (scanner window invariant, visitor-callback arithmetic, sizes of indexed records) and outside the parser scope",
+               "(c) the chunk loop of RecoveryScanner::visit_blocks (needs the same window invariant); termination of callees"]
+TECHNIQUE = ("static analysis: MIR dominance / guard / who-may-call rules via a custom rustc_private driver, plus a flow-sensitive value "
+             "reconstruction with linear-integer discharge (interval propagation + Fourier-Motzkin) of every bounds / overflow / "
+             "length obligation in the device-byte parsers")
+ASSUMPTIONS = ["FreeSpaceManager::initialize / set_device_size are in-memory only (no device primitive reachable: checked)",
+               "DiskIO::read_sectors_sync returns exactly count * FEOX_BLOCK_SIZE bytes on Ok (C17.bounds postcondition, taken on trust)",
+               "entry contracts of parser helpers hold at call sites outside the C17.bounds scope (write path passes API-validated sizes, C10.bounds)"]
 
 OPEN_BODIES = ["FeoxStore::with_config_and_open_mode", "FeoxStore::open_device", "FeoxStore::open_device_read_only",
                "FeoxStore::open_fresh_device", "FeoxStore::initialize_fresh_device", "FeoxStore::attach_device_file",
